@@ -539,7 +539,7 @@ impl Engine for ArcEngine {
                 w[i] = 0;
             }
         }
-        let c_party = rng.chance(1, 2);
+        let c_party = rng.chance(1, 2) || simcore::force_c_party();
         let foreign = rng.chance(1, 3);
         let cross_thread = threads > 1;
         for _ in 0..max_steps {
